@@ -119,6 +119,7 @@ def input_ids(case):
     return by
 
 F_RESTART = 'C03-index-restart-per-graph'
+RESTART_EVIDENCE = collections.Counter()
 
 def index_restart_signature(ev, e, txs):
     """known finding C03-index-restart-per-graph: every graph of one transcript (main, one per fusion, one per circRNA)
@@ -142,8 +143,39 @@ def index_restart_signature(ev, e, txs):
             continue
         same = [x for x in es if _noorf(x) == _noorf(e)]
         if len(set(same)) >= 2 or any(x.split('|')[0] in alt_ids for x in es):
+            RESTART_EVIDENCE['two-graphs-visible'] += 1
             return F_RESTART
-    return None
+    ok = restart_counterfactual(ev, e, bb)
+    RESTART_EVIDENCE['counterfactual:%s' % ('finding' if ok else 'VIOLATION')] += 1
+    return F_RESTART if ok else None
+
+def restart_counterfactual(ev, e, bb, reps=4):
+    """the by-product above is not always visible (identical strings of two graphs are merged on one peptide, and the
+    output flickers between repeats of one input): decide the mechanism EXECUTABLY.  The identical case is re-run
+    `reps` times WITHOUT the fusion / circRNA records of the backbone bb (the main graph does not depend on them).  It is
+    the finding iff in every repeat (1) all entry strings of bb are unique - the main graph alone never duplicates - and
+    (2) the main graph accounts for at most one of the peptides that carried the duplicated string: the others get
+    it only when a fusion / circRNA graph of bb is present."""
+    c = json.loads(json.dumps(CK.strip_case(ev.case)))
+    c['fusions'] = [f for f in c.get('fusions', []) if f['donor_tx'] != bb]
+    c['circ_records'] = [r for r in c.get('circ_records', []) if r['tx'] != bb]
+    for k in ('fusions', 'circ_records'):
+        if not c[k]:
+            c.pop(k)
+    c['runs'] = [dict(ev.run, skip_oracle=True)]
+    carriers = set(s_ for s_, es in ev.got.items() if e in es)
+    class _Ctx: pass
+    ctx = _Ctx(); ctx.jobs = 2; ctx.quick = True
+    evs = CK2.run_batch(ctx, [json.loads(json.dumps(c)) for _ in range(reps)], want_may=False, tag='c03cf')
+    for e2 in evs:
+        if e2.exc:
+            return False
+        mine = [x for es in e2.got.values() for x in es if x.split('|')[0] == bb]
+        if len(set(mine)) != len(mine):
+            return False
+        if len([s_ for s_ in carriers if e in e2.got.get(s_, [])]) > 1:
+            return False
+    return True
 
 def judge_ids(evs, violations, stats):
     """C03 on alternative-splicing / circRNA / fusion backbones, the part that needs no semantics: every entry parses
@@ -650,7 +682,7 @@ def run(ctx):
                 rule='one evaluation = one (peptide, header entry) pair checked with the proved decider witness_ok (entries with generated SECT / W2F identifiers: witness_ok_pos, position exact); '
                      'non-trivial = number of runs whose FASTA has at least one entry',
                 samples=samples, distribution=CK.dist_of(cases), stats=dict(stats),
-                known_finding_counts=dict(cnt), superfluous_id_distance_histogram={str(k): v for k, v in sorted(GAPS.items(), key=lambda kv: str(kv[0])) if isinstance(k, str)}, engine_tied_by='correspondence', stream_wall_s=stream_wall, violations=keep,
+                known_finding_counts=dict(cnt), index_restart_evidence=dict(RESTART_EVIDENCE), superfluous_id_distance_histogram={str(k): v for k, v in sorted(GAPS.items(), key=lambda kv: str(kv[0])) if isinstance(k, str)}, engine_tied_by='correspondence', stream_wall_s=stream_wall, violations=keep,
                 assumptions=['records are SNV / MNV / INDEL on linear transcripts; fusion / circRNA backbones are not generated here (property partial for them)',
                              'SECT-n is mapped to its Sec codon with the generator\'s ground truth (gene -> transcript), W2F-i is read as the 1-based residue index of the printed peptide (measured: 2 699 / 2 699 entries)',
                              'the peptide table\'s header column is not read (the FASTA is assembled from it by the tool itself)'],
@@ -665,7 +697,9 @@ def replay(ctx, obj):
     if obj.get('what') == 'header-ids':
         for r in c['runs']:
             r['skip_oracle'] = True
-        judge_ids(CK2.run_batch(ctx, [json.loads(json.dumps(c)) for _ in range(min(n, 2))], want_may=False, tag='c03r'), violations, stats)
+        import copy as _copy
+        ctx2 = _copy.copy(ctx); ctx2.jobs = 2     # the output flickers between repeats: many repeats in FEW worker processes
+        judge_ids(CK2.run_batch(ctx2, [json.loads(json.dumps(c)) for _ in range(max(n, 24))], want_may=False, tag='c03r'), violations, stats)
         seen = set(); out = []
         for v in violations:
             if v['what'] not in seen:
